@@ -7,7 +7,8 @@ From Ink.Gen Require Import EngineGen.
 
 Definition sw_now : switches :=
   mkSwitches alias_current warnings_cleared observer_removal_checked remove_flow_checked
-             seed_ovf_panics cont_check_first path_validated_first eval_args_first ext_guard_fixed.
+             seed_ovf_panics cont_check_first path_validated_first eval_args_first ext_guard_fixed
+             guard_setvar guard_remove_flow guard_switch_default guard_load.
 
 Lemma now_cont_check_first : sw_cont_check_first sw_now = true.          Proof. reflexivity. Qed.
 Lemma now_path_validated_first : sw_path_validated_first sw_now = true.  Proof. reflexivity. Qed.
@@ -16,4 +17,8 @@ Lemma now_observer_removal_checked : sw_observer_removal_checked sw_now = true. 
 Lemma now_remove_flow_checked : sw_remove_flow_checked sw_now = true.    Proof. reflexivity. Qed.
 Lemma now_warnings_cleared : sw_warnings_cleared sw_now = true.          Proof. reflexivity. Qed.
 Lemma now_ext_guard_fixed : sw_ext_guard_fixed sw_now = true.            Proof. reflexivity. Qed.
+Lemma now_guard_setvar : sw_guard_setvar sw_now = true.                  Proof. reflexivity. Qed.
+Lemma now_guard_remove_flow : sw_guard_remove_flow sw_now = true.        Proof. reflexivity. Qed.
+Lemma now_guard_switch_default : sw_guard_switch_default sw_now = true.  Proof. reflexivity. Qed.
+Lemma now_guard_load : sw_guard_load sw_now = true.                      Proof. reflexivity. Qed.
 Lemma now_seed_wraps : sw_ovf_panics sw_now = false.                     Proof. reflexivity. Qed.
